@@ -334,8 +334,6 @@ K('polygon2d_area', POLY + 'area', [LP2], 'S', 'Poly', ['C01', 'C03', 'C16'],
   self_from={'cls': 'Polygon2D', 'slots': {'_vertices': 'vs'}})
 K('polygon2d_is_clockwise', POLY + 'is_clockwise', [LP2], 'B', 'Poly', ['C01', 'C03', 'C06'],
   self_from={'cls': 'Polygon2D', 'slots': {'_vertices': 'vs'}})
-K('polygon2d_perimeter', POLY + 'perimeter', [LP2], 'S', 'Poly', ['C01', 'C03'],
-  self_from={'cls': 'Polygon2D', 'slots': {'_vertices': 'vs'}})
 K('polygon2d_are_clockwise', POLY + '_are_clockwise', [LP2], 'B', 'Poly', ['C01', 'C06'])
 
 
